@@ -549,16 +549,10 @@ def run_chain(case, stt):
                 other = other_raw
             trial = model.copy()
             try:
-                if dask_backed:
-                    # the reference for Dask data is the same in-place ufunc on a plain Dask array (Dask replaces the graph of `out`
-                    # and does not enforce NumPy's same-kind casting rule)
-                    import dask.array as da
-
-                    td = da.from_array(trial, chunks=(2,) + trial.shape[1:])
-                    UF[opn[:-1]](td, other_raw, out=td)
-                    trial = td.compute(scheduler="synchronous")
-                else:
-                    UF[opn[:-1]](trial, other_raw, out=trial)
+                # one reference for both containers: NumPy's in-place result on the array, NumPy's same-kind casting rule included.  (A plain Dask
+                # array rebinds the graph of `out` whatever the result's dtype; a signal that did the same would end up holding data its class
+                # does not admit -- an IntensitySignal of complex numbers after `*= 1j` -- or of another dtype than the one it was given)
+                UF[opn[:-1]](trial, other_raw, out=trial)
                 ok_np = True
             except (TypeError, ValueError) as e:
                 ok_np, exc = False, type(e)
